@@ -82,7 +82,32 @@ pub fn drive(args: &[String]) {
         pool.extend(sets_with_branching(3, 4, &[1, 2, 3, 4, 6], arg_usize(args, "--branchings", 12), &mut rng).into_iter().filter(|s| s.size() == 4));
         eprintln!("C03 families: pool of {} 2-D and {} 3-D symbols", n2, pool.len() - n2);
         pool.shuffle(&mut rng);
-        for s in pool.into_iter().take(nfam) {
+        pool.truncate(nfam);
+        // big polygons: one face with 70-150 edges (140-300 chambers), most edges on the boundary, a few glued in pairs
+        // (straight or twisted) far apart: seeds whose codes agree on a long prefix and then differ by a large number
+        for _ in 0..arg_usize(args, "--polygons", 12) {
+            let ne = rng.gen_range(70..=150usize);
+            let n = 2 * ne;
+            let mut s2: Vec<usize> = (0..=n).collect();
+            let mut free: Vec<usize> = (0..ne).collect();
+            free.shuffle(&mut rng);
+            for _ in 0..rng.gen_range(1..=3) {
+                let (a, b) = (free.pop().unwrap(), free.pop().unwrap());
+                let twist = rng.gen_bool(0.5);
+                let (a1, a2, b1, b2) = (2 * a + 1, 2 * a + 2, 2 * b + 1, 2 * b + 2);
+                if twist { s2[a1] = b1; s2[b1] = a1; s2[a2] = b2; s2[b2] = a2; } else { s2[a1] = b2; s2[b2] = a1; s2[a2] = b1; s2[b1] = a2; }
+            }
+            let s0: Vec<usize> = (1..=n).map(|d| if d % 2 == 1 { d + 1 } else { d - 1 }).collect();
+            let s1: Vec<usize> = (1..=n).map(|d| if d % 2 == 0 { d % n + 1 } else { (d + n - 2) % n + 1 }).collect();
+            let j = json!({"dim": 2, "n": n, "op": [s0, s1, s2[1..].to_vec()], "v": [vec![1; n], vec![1; n]]});
+            // branching 1 everywhere is a legal symbol only if degrees are; give every vertex orbit a random branching
+            let base = dsym_from_json(&j);
+            let mut t = base.clone();
+            // two of three polygons keep branching 1 everywhere (seeds are then told apart only by where the glued edges close)
+            if rng.gen_range(0..3) == 0 { for d in t.orbit_reps_2d(1, 2) { let v = *[1usize, 1, 2, 3].choose(&mut rng).unwrap(); t.set_v(1, d, v); } }
+            pool.push(t);
+        }
+        for s in pool.into_iter() {
             let n = s.size();
             let member = |t: &PartialDSym, perm: Option<&Vec<usize>>| -> Value {
                 let mut m = json!({"in": dsym_json(t), "perm": perm.map(|p| p[1..].to_vec()).unwrap_or_default()});
@@ -95,7 +120,9 @@ pub fn drive(args: &[String]) {
             let mut members = vec![member(&s, None)];
             for k in 0..4 {
                 // two transpositions and two random renumberings
-                let p = if k < 2 { let (a, b) = (rng.gen_range(1..=n), rng.gen_range(1..=n)); let mut p: Vec<usize> = (0..=n).collect(); p.swap(a, b); p } else { rand_perm(n, &mut rng) };
+                let p = if n >= 100 && k == 0 { let mut p: Vec<usize> = (0..=n).collect(); p[1..].reverse(); p }                       // reversed numbering
+                    else if n >= 100 && k == 1 { let sh = rng.gen_range(1..n); let mut p: Vec<usize> = (0..=n).collect(); for d in 1..=n { p[d] = (d - 1 + sh) % n + 1; } p }   // shifted
+                    else if k < 2 { let (a, b) = (rng.gen_range(1..=n), rng.gen_range(1..=n)); let mut p: Vec<usize> = (0..=n).collect(); p.swap(a, b); p } else { rand_perm(n, &mut rng) };
                 members.push(member(&renumber(&s, &p), Some(&p)));
             }
             sink.emit(json!({"ev": "canonical_family", "grp": format!("fam{}", sink.n / 200), "members": members}));
